@@ -85,6 +85,7 @@ func c01(c *Ctx) {
 	exclusiveCheckAct(c, c.Fn(quotaCorePkg, "GroupQuotaManager", "UnreservePod"), "CheckPodIsAssigned", "updatePodUsedNoLock", "the request of a pod deleted in between is subtracted twice, in the group and every ancestor")
 	c.R.Rule("CREATE-ONCE: in a get-or-create of a per-key record, the lookup that finds the key absent and the store of the fresh record happen in one hold of the mutex the store runs under (no release of it in between)")
 	createOnce(c, c.Fn(quotaPluginPkg, "Plugin", "GetOrCreateGroupQuotaManagerForTree"), "the quota groups registered in the replaced manager are orphaned: every later pod event for them is dropped and their used is never counted")
+	c01forgetMappingFirst(c)
 	r := c.R
 	r.Rule("PATH(tombstone): the delete handler treats a cache.DeletedFinalStateUnknown (delivered by value) like the object inside it: both reach the release, and no assertion to the pointer type exists")
 	c.Tombstone("PATH", quotaPluginPkg, "Plugin", "OnPodDelete", "handlePodDelete")
